@@ -876,6 +876,9 @@ func Binary(op string, l, rv Val) Val { //nolint:gocyclo,funlen // operator tabl
 		}
 		return errf("unknown operator on integers")
 	case lF || rF:
+		if _, isArr := l.(*Arr); isArr {
+			break // an array on the left: + appends whatever the right operand is ([1] + 1.5), handled below
+		}
 		var a, b float64
 		switch x := l.(type) {
 		case int64:
